@@ -58,10 +58,10 @@ PLANAR3 = [(a, b, c) for a in (-1, 0, 1) for b in (-1, 0, 1) for c in (-1, 0, 1)
 # name -> spec ; grids = list of (NK, NKFFT)
 MODELS = {
     # bundled
-    "Haldane": dict(kind="bundled", gens=("C3z",), grids=[((6, 6, 1), (3, 3, 1)), ((4, 4, 1), (2, 2, 1))]),
+    "Haldane": dict(kind="bundled", gens=("C3z",), grids=[((6, 6, 1), (2, 2, 1)), ((4, 4, 1), (2, 2, 1))]),   # NKdiv=3: K and -K differ
     "Chiral": dict(kind="bundled", gens=("C3z",), grids=[((4, 4, 2), (2, 2, 2)), ((3, 3, 3), (3, 3, 3))]),
     "Chiral_TR": dict(kind="bundled", gens=("C3z", "T"), grids=[((4, 4, 2), (2, 2, 2))]),
-    "KaneMele": dict(kind="bundled", gens=("C3z", "T"), grids=[((6, 6, 1), (3, 3, 1)), ((4, 4, 1), (2, 2, 1))]),
+    "KaneMele": dict(kind="bundled", gens=("C3z", "T"), grids=[((6, 6, 1), (2, 2, 1)), ((4, 4, 1), (2, 2, 1))]),
     "CuMnAs": dict(kind="bundled", gens=("IT",), grids=[((4, 4, 1), (2, 2, 1))]),
     # hand-symmetrised generic systems
     "Ci_spinless3": dict(kind="hand", spec=dict(nw_orb=3, lat="tric", rs="shell1", gens=("I",), parities=[1, -1, 1]),
@@ -75,11 +75,12 @@ MODELS = {
     "CiTR_spinor2": dict(kind="hand", spec=dict(nw_orb=2, lat="tric", rs="shell1", gens=("I", "T"), parities=[1, -1], spinor=True),
                          grids=[((4, 4, 4), (2, 2, 2))]),
     "PT_spinor2": dict(kind="hand", spec=dict(nw_orb=2, lat="tric", rs="shell1", gens=("IT",), parities=[1, -1], spinor=True),
-                       grids=[((4, 4, 4), (2, 2, 2))]),
+                       grids=[((3, 3, 3), (1, 1, 1)), ((4, 4, 4), (2, 2, 2))]),
     "C4v_spinless2": dict(kind="hand", spec=dict(nw_orb=2, lat="tet", rs="shell2", gens=("C4z", "Mx")),
                           grids=[((4, 4, 4), (2, 2, 2)), ((6, 6, 3), (3, 3, 3))]),
+    # NKdiv = 3: with NKdiv <= 2 every K equals -K modulo the reduced cell and antiunitary operations T*g act like g on the K-list
     "m4mm_spinor2": dict(kind="hand", spec=dict(nw_orb=2, lat="tet", rs="shell1", gens=("C4z", "MxT"), spinor=True),
-                         grids=[((4, 4, 2), (2, 2, 2))]),
+                         grids=[((6, 6, 3), (2, 2, 1)), ((4, 4, 2), (2, 2, 2))]),
     "D3_spinless2": dict(kind="hand", spec=dict(nw_orb=2, lat="hex", rs=PLANAR3, gens=("C3z", "C2x")),
                          grids=[((6, 6, 2), (3, 3, 2))]),
     "Oh_spinless2": dict(kind="hand", spec=dict(nw_orb=2, lat="sc", rs="shell2", gens=("C3d", "C4z", "I"), parities=[1, -1]),
@@ -99,7 +100,7 @@ MODELS = {
                                                  parities=[1]),
                           grids=[((4, 4, 4), (2, 2, 2))]),
     "C4zT_spinor2": dict(kind="hand", spec=dict(nw_orb=2, lat="tet", rs="shell1", gens=("C4zT",), spinor=True),
-                         grids=[((4, 4, 2), (2, 2, 2))]),
+                         grids=[((6, 6, 3), (2, 2, 1)), ((4, 4, 2), (2, 2, 2))]),
     "Mz_spinless4": dict(kind="hand", spec=dict(nw_orb=4, lat="mono", rs="shell1", gens=("My",)),
                          grids=[((4, 4, 4), (2, 2, 2))]),
 }
